@@ -730,6 +730,7 @@ func newLoop(ws []string) string {
 	case "udp":
 		st.addr = "udp://127.0.0.1:0"
 	}
+	opts = append(opts, gnet.WithLogger(quiet{})) // the framework's error log would go to stdout, into the reply stream
 	loop, err := gnet.NewVerifLoop(&handler{}, []string{st.addr}, opts...)
 	if err != nil {
 		return "bad-loop:" + err.Error()
@@ -925,6 +926,10 @@ func step(ws []string) string {
 				}
 			}
 		}
+		// C18: retryable accept(2) errors have no visible effect: every peer that connected has been accepted by now
+		if st.blocked && !st.exited && len(st.pending) > 0 {
+			fail(fmt.Sprintf("C18: the loop is idle while %d connected peers were never accepted", len(st.pending)))
+		}
 		// C18: a connection that met a non-retryable I/O failure must be closed by now, with one OnClose(err != nil)
 		for _, cid := range st.order {
 			ci := st.conns[cid]
@@ -990,6 +995,15 @@ func step(ws []string) string {
 	}
 	return "bad-op"
 }
+
+// quiet swallows the framework's log output
+type quiet struct{}
+
+func (quiet) Debugf(string, ...any) {}
+func (quiet) Infof(string, ...any)  {}
+func (quiet) Warnf(string, ...any)  {}
+func (quiet) Errorf(string, ...any) {}
+func (quiet) Fatalf(string, ...any) {}
 
 // connOf remembers the gnet.Conn of every opened connection (set in OnOpen)
 var connOf = map[string]gnet.Conn{}
